@@ -82,7 +82,11 @@ struct Header {
     u128 data_length = 0;
 };
 
-struct ParseResult { bool ok = false; std::string reason; Header h; };
+struct ParseResult {
+    bool ok = false; std::string reason; Header h;
+    bool int_overflow = false;      // failure caused by an integer longer than 10 bytes or >= 2^64
+    bool int_unterminated = false;  // failure caused by an integer running off its buffer
+};
 
 // Parse lead+header from the beginning of `f`.  `ok` means: structurally parseable, known
 // hash/compression types and flags, no streams, no signatures (unsupported by the format's
@@ -91,13 +95,17 @@ struct ParseResult { bool ok = false; std::string reason; Header h; };
 // bytes, count mismatch) is accepted here and reported in the meta verdict instead.
 static inline ParseResult parse(const Bytes &f) {
     ParseResult r; Header &h = r.h; size_t n = f.size(); size_t p = 0;
-    auto bad = [&](const char *why) { r.ok = false; r.reason = why; return r; };
+    CiResult c{CiResult::OK, 0, 0};
+    auto bad = [&](const char *why) {
+        r.ok = false; r.reason = why;
+        r.int_overflow = c.status == CiResult::TOO_LONG || c.status == CiResult::OVERFLOW64;
+        r.int_unterminated = c.status == CiResult::UNTERMINATED; return r; };
     if (n < 5) return bad("short lead");
     if (memcmp(f.data(), "\0ZCK1", 5) == 0) h.detached = false;
     else if (memcmp(f.data(), "\0ZHR1", 5) == 0) h.detached = true;
     else return bad("bad magic");
     p = 5;
-    CiResult c = ci_get(f.data() + p, n - p); if (c.status != CiResult::OK) return bad("lead hash type integer");
+    c = ci_get(f.data() + p, n - p); if (c.status != CiResult::OK) return bad("lead hash type integer");
     h.hash_type = (uint64_t)c.value; p += c.length;
     // overall checksum type: spec lists 0 and 1; the index list (0..3) is what implementations take
     if (digest_size(h.hash_type) < 0) return bad("unknown overall hash type");
